@@ -13,7 +13,7 @@ RULE = ("vrl x object-name length x payload length (0..40 and k*cap+{-2..2}) x k
         "1..2 NO-FORMAT objects in every interleaving; a third of the cases is written twice with the same objects, another third "
         "twice with the payloads changed in between (bytearrays in place, others through the record's data attribute), half of the rewritten cases with the NO-FORMAT objects moved to a second origin between the writes, "
         "and the second file is checked; plus 2..3 logical files with 0..2 payloads each, added in every interleaving "
-        "across the files (each file must hold exactly its own); non-trivial = file written and type-1 IFLRs compared")
+        "across the files (each file must hold exactly its own); 2..3 equally named NO-FORMAT objects in one or several sets; non-trivial = file written and type-1 IFLRs compared")
 ASSUMPTIONS = ["strict reader mc/rp66.py", "reference model mc/model.py"]
 
 
@@ -21,7 +21,8 @@ def shards(tier):
     vr = [32, 64, 8192] if tier == 'quick' else [32, 34, 40, 64, 100, 128, 1024, 8192, 16384]
     return [{'vrl': v, 'nlen': n, 'part': p} for v in vr for n in (1, 8, 20) for p in ('single', 'seq')] + \
         [{'vrl': 8192, 'nlen': 8, 'part': 'lfs', 'counts': list(c)}
-         for k in (2, 3) for c in itertools.product((0, 1, 2), repeat=k) if any(c)]
+         for k in (2, 3) for c in itertools.product((0, 1, 2), repeat=k) if any(c)] + \
+        [{'vrl': 8192, 'nlen': 8, 'part': 'samename'}]
 
 
 def bounds(tier):
@@ -61,6 +62,14 @@ def _merges(counts):
 
 
 def cases(shard, tier):
+    if shard['part'] == 'samename':
+        # 2..3 equally named NO-FORMAT objects of one logical file, in one set or in sets of their own, payloads added
+        # in every order: each record must come back under ITS object (the copy number tells them apart)
+        for nobj in (2, 3):
+            for sets in ('one-set', 'own-sets', 'first-two-share'):
+                for order in itertools.product(range(nobj), repeat=3):
+                    yield {'part': 'samename', 'nobj': nobj, 'sets': sets, 'order': list(order)}
+        return
     if shard['part'] == 'lfs':
         # several logical files, each with its own NO-FORMAT object (equally named: distinct set names) and 0..2
         # payloads, the payloads added in every interleaving across the files
@@ -93,6 +102,18 @@ def cases(shard, tier):
                            'seq': [[o, n, 'bytes', ('01', 'plain', '00')[i % 3]] for i, (o, n) in enumerate(zip(objs, lens))]}
 
 
+def samename_spec(case):
+    sp = S.minimal_spec(vrl=8192, rows=1)
+    for i in range(case['nobj']):
+        sn = {'one-set': {}, 'own-sets': {'set_name': f'PASS-{i}'},
+              'first-two-share': {'set_name': 'PASS-A' if i < 2 else 'PASS-B'}}[case['sets']]
+        sp['ops'].append(S.op_add('no_format', f'N{i}', 'IMAGE', **sn))
+    for j, o in enumerate(case['order']):
+        sp['ops'].append({'op': 'nfdata', 'lf': 'L0', 'nf': f'N{o}', 'h': f'R{j}',
+                          'data': enc(('bytes', 'str', 'bytearray')[j % 3], payload(4 + j + 3 * o, 'plain', 7 * j + o))})
+    return sp
+
+
 def lfs_spec(case):
     k = len(case['counts'])
     ops = []
@@ -115,7 +136,7 @@ def lfs_spec(case):
 
 
 def run_lfs(case):
-    sp = lfs_spec(case)
+    sp = samename_spec(case) if case['part'] == 'samename' else lfs_spec(case)
     res = S.run_spec(sp)
     if res['failed_at'] is not None:
         return Outcome('build-raised', [("C16:lfs:build-raised", f"{res['status'][-1]} | {case}")], False)
@@ -132,7 +153,7 @@ def run_lfs(case):
                 viol.append((f"C16:lfs:{code}", f"logical file {i}: {d} | {case}"))
     except R.FormatError as e:
         viol.append((f"C16:unparsable:{e.code}", f"{e} | {case}"))
-    return Outcome('ok:lfs:%d' % len(case['counts']), viol, True, digest=sha(res['data']))
+    return Outcome('ok:samename' if case['part'] == 'samename' else 'ok:lfs:%d' % len(case['counts']), viol, True, digest=sha(res['data']))
 
 
 def make_spec(case):
@@ -192,7 +213,7 @@ def _write_twice(sp, change=False, reidentify=False):
 
 
 def run_case(case):
-    if case.get('part') == 'lfs':
+    if case.get('part') in ('lfs', 'samename'):
         return run_lfs(case)
     sp = make_spec(case)
     # every third case of a shard is written twice with the same objects; the second file is the one that is checked
